@@ -171,10 +171,12 @@ impl ConnectionState {
                 *self = ConnectionState::ServerClosing(close);
 
                 for (_, mut slot) in inner.chan_slots.drain() {
-                    send(&slot.tx, Err(make_err()))?;
+                    // Consumers first: once the handle's thread sees the error it may
+                    // drop its consumers (and their receivers) at any moment.
                     for (_, tx) in slot.consumers.drain() {
                         send(&tx, ConsumerMessage::ServerClosedConnection(make_err()))?;
                     }
+                    send(&slot.tx, Err(make_err()))?;
                 }
             }
             // Server ack for client-initiated connection close.
@@ -189,10 +191,11 @@ impl ConnectionState {
                 *self = ConnectionState::ClientClosed;
 
                 for (_, mut slot) in inner.chan_slots.drain() {
-                    send(&slot.tx, Err(Error::ClientClosedConnection))?;
+                    // Consumers first, as above.
                     for (_, tx) in slot.consumers.drain() {
                         send(&tx, ConsumerMessage::ClientClosedConnection)?;
                     }
+                    send(&slot.tx, Err(Error::ClientClosedConnection))?;
                 }
             }
             // Server is blocking publishes due to an alarm on its side (e.g., low mem)
@@ -233,10 +236,12 @@ impl ConnectionState {
                     rx, tx: slot_tx, ..
                 } = slot;
                 drop(rx);
-                send(&slot_tx, Err(make_err()))?;
+                // Consumers first: once the handle's thread sees the error it may drop
+                // its consumers (and their receivers) at any moment.
                 for (_, tx) in slot.consumers.drain() {
                     send(&tx, ConsumerMessage::ServerClosedChannel(make_err()))?;
                 }
+                send(&slot_tx, Err(make_err()))?;
                 inner.push_method(n, AmqpChannel::CloseOk(ChannelCloseOk {}));
             }
             // Server ack for client-initiated channel close.
@@ -292,15 +297,18 @@ impl ConnectionState {
             AMQPFrame::Method(n, AMQPClass::Basic(AmqpBasic::CancelOk(cancel_ok))) => {
                 let slot = slot_get_mut(inner, n)?;
                 let consumer = slot.consumers.remove(&cancel_ok.consumer_tag);
+                // Notify the consumer before waking the thread blocked in cancel():
+                // once that thread is released it may drop the consumer (and with it
+                // the receiving end of tx) at any moment.
+                if let Some(tx) = consumer {
+                    send(&tx, ConsumerMessage::ClientCancelled)?;
+                }
                 send(
                     &slot.tx,
                     Ok(ChannelMessage::Method(AMQPClass::Basic(
                         AmqpBasic::CancelOk(cancel_ok),
                     ))),
                 )?;
-                if let Some(tx) = consumer {
-                    send(&tx, ConsumerMessage::ClientCancelled)?;
-                }
             }
             // Server beginning delivery of content to a consumer.
             AMQPFrame::Method(n, AMQPClass::Basic(AmqpBasic::Deliver(deliver))) => {
